@@ -137,11 +137,23 @@ def impl_builtin(case):
         c3 = gen_cuts(rng, n, 3, ms, 6)
         c4 = gen_cuts(rng, n, 4, 1, 10)
         c4 = [c for c in c4 if c[2] - c[1] >= ms and (c[1] - c[0]) + (c[3] - c[2]) >= ms]
-        out = {"outcome": "ok", "min_size": ms, "c2": c2, "c3": c3, "c4": c4}
-        ev = lambda sc, cuts: sc.evaluate(np.array(cuts)).tolist() if cuts else []  # noqa: E731
+        # a pure equal-length batch whose first split is centred and the others are not
+        c3e = []
+        if n >= 12:
+            L = 2 * rng.randint(max(2, ms), 4)
+            s0 = rng.randint(0, n - L - 3)
+            c3e = [(s0, s0 + L // 2, s0 + L)] + [(s0 + d, s0 + d + rng.randint(ms, L - ms), s0 + d + L) for d in (0, 1, 2, 3)]
+        out = {"outcome": "ok", "min_size": ms, "c2": c2, "c3": c3 + c3e, "c4": c4}
+
+        def ev(sc, cuts):
+            if cuts is c3full:  # the two 3-point batches are evaluated in separate calls
+                return (sc.evaluate(np.array(c3)).tolist() if c3 else []) + (sc.evaluate(np.array(c3e)).tolist() if c3e else [])
+            return sc.evaluate(np.array(cuts)).tolist() if cuts else []
+
+        c3full = out["c3"]
         C = lambda s, e, sc=opt: sc.evaluate(np.array([[s, e]]))[0]  # noqa: E731
-        out["change"] = ev(ChangeScore(_mk(case, False)).fit(X), c3)
-        out["change_def"] = [(C(s, e) - C(s, k) - C(k, e)).tolist() for s, k, e in c3]
+        out["change"] = ev(ChangeScore(_mk(case, False)).fit(X), c3full)
+        out["change_def"] = [(C(s, e) - C(s, k) - C(k, e)).tolist() for s, k, e in c3full]
         out["saving"] = ev(Saving(_mk(case, True)).fit(X), c2)
         out["saving_def"] = [(C(s, e, fix) - C(s, e)).tolist() for s, e in c2]
         out["local"] = ev(LocalAnomalyScore(_mk(case, False)).fit(X), c4)
@@ -151,7 +163,7 @@ def impl_builtin(case):
             loc.append((C(s, e) - C(a, b) - _mk(case, False).fit(sur).evaluate(np.array([[0, len(sur)]]))[0]).tolist())
         out["local_def"] = loc
         if case["cost"] == "l2":
-            out["cusum"] = ev(CUSUM().fit(X), c3)
+            out["cusum"] = ev(CUSUM().fit(X), c3full)
             out["l2saving"] = ev(L2Saving().fit(X), c2)
             from skchange.costs import L2Cost
 
